@@ -12,7 +12,8 @@ BlockTraces(b) == JsonDeserialize(IOEnv.TRACE_DIR \o "/b" \o ToString(b) \o ".js
 NB == 64
 Verdict(r) ==
   LET e == Expected(r.card, r.rho) IN
-  IF e.outcome = "rejected" THEN (IF r.result = "error" /\ r.diag THEN "ok" ELSE IF r.result = "error" THEN "rejected_by_accident" ELSE "mixed_signs_accepted")
+  IF r.other_rejected THEN (IF r.result = "error" THEN "ok" ELSE "mixed_signs_accepted")     \* the other card of the deck mixes signs
+  ELSE IF e.outcome = "rejected" THEN (IF r.result = "error" /\ r.diag THEN "ok" ELSE IF r.result = "error" THEN "rejected_by_accident" ELSE "mixed_signs_accepted")
   ELSE IF e.outcome = "unsupported" THEN "ok"
   ELSE IF r.result # "ok" THEN "crash"
   ELSE IF r.found # 1 THEN "composition_count"
@@ -21,7 +22,7 @@ Verdict(r) ==
   ELSE IF e.type = "DENSITY" /\ r.nb_atom # e.nb_atom THEN "wrong_nb_atom_flag"
   ELSE IF e.type = "DENSITY" /\ ~REq(r.dens, e.dens) THEN "wrong_density_value"
   ELSE IF \E i \in 1..Len(e.values) : r.values[i][2] = 0 \/ ~REq(r.values[i], e.values[i]) THEN "wrong_amounts"
-  ELSE IF ~r.m0 \/ r.declared # 2 THEN "block_structure"
+  ELSE IF ~r.m0 \/ r.declared # r.nwritten THEN "block_structure"
   ELSE "ok"
 BlockVerdict(b) ==
   LET tr == BlockTraces(b)
